@@ -14,11 +14,17 @@ SCRIPTED = ["msub", "msup", "msubsup", "munder", "mover", "munderover"]
 VARIANTS = ["bold", "italic", "double-struck", "script", "normal", "fraktur"]
 
 
+# pieces that the merging / normalising passes look for, to be mixed with ordinary characters inside ONE token
+PIECES = ["'", "′", "″", "‴", "-", "−", "--", "_", ".", "..", "…", "¯", "|", ",", ":", "*", "^", "°", "!", "x", "y", "f", "A", "2", "10", "α", "s", "ab", " "]
+
+
 def gen_token(rng):
     tag = rng.choice(["mi", "mi", "mn", "mn", "mo", "mo", "mtext"])
     attrs = {}
     if rng.random() < 0.08:
         attrs["mathvariant"] = rng.choice(VARIANTS)
+    if rng.random() < 0.15:
+        return N(tag, text="".join(rng.choice(PIECES) for _ in range(rng.randrange(2, 4))), attrs=attrs)
     return N(tag, text=rng.choice(TOK_TEXT[tag]), attrs=attrs)
 
 
@@ -43,6 +49,16 @@ def gen_tree(rng, depth):
     r = rng.random()
     d = depth - 1
     sub = lambda: gen_tree(rng, d) if rng.random() < 0.85 else gen_degenerate(rng)
+    if r < 0.05:
+        # prescript patterns: one or more scripts with an empty base in front of (or behind) other material
+        empty = lambda: rng.choice([N("mrow"), N("mtext", text=""), N("mi", text=" ")])
+        def script(e):
+            tag = rng.choice(["msub", "msup", "msubsup"])
+            return N(tag, [empty() if e else sub()] + [sub() for _ in range(2 if tag == "msubsup" else 1)])
+        kids = [script(rng.random() < 0.75) for _ in range(rng.randrange(1, 4))] + [sub() for _ in range(rng.randrange(0, 3))]
+        if rng.random() < 0.3:
+            rng.shuffle(kids)
+        return N("mrow", kids)
     if r < 0.30:
         return N("mrow", [sub() for _ in range(rng.randrange(0, 6))])
     if r < 0.38:
